@@ -221,7 +221,7 @@ class Const(Dom):
 
 class Harness:
     def __init__(self, name, fn, inputs, bounds="", outside=(), stubs=(), loop_bound=300, witness_cap=60,
-                 timeout_ms=60000, models=None, patches=None):
+                 timeout_ms=60000, models=None, patches=None, interpret=None):
         self.name = name
         self.fn = fn
         self.inputs = inputs          # dict name -> Dom  (or callable(tier) -> dict)
@@ -233,6 +233,7 @@ class Harness:
         self.timeout_ms = timeout_ms
         self.models = dict(models or {})
         self.patches = list(patches or [])   # (owner, attribute, replacement): environment stubs, active symbolically and natively
+        self.interpret = list(interpret or [])   # pure-Python functions outside the repository that are interpreted too (e.g. protobuf's varint helpers)
 
     def input_domains(self, tier):
         d = self.inputs(tier) if callable(self.inputs) else self.inputs
